@@ -328,6 +328,10 @@ pub unsafe extern "C" fn SFileCreateArchive(
 #[no_mangle]
 pub extern "C" fn SFileCloseArchive(handle: HANDLE) -> bool {
     if let Some(handle_id) = handle_to_id(handle) {
+        // Close the archive first: from here on no other thread can open a file or start a
+        // search on it, so the handles purged below are all there will ever be
+        let closed = ARCHIVES.lock().unwrap().remove(&handle_id).is_some();
+
         // Remove any open files from this archive
         FILES
             .lock()
@@ -340,8 +344,7 @@ pub extern "C" fn SFileCloseArchive(handle: HANDLE) -> bool {
             .unwrap()
             .retain(|_, find| find.archive_handle != handle_id);
 
-        // Close the archive
-        if ARCHIVES.lock().unwrap().remove(&handle_id).is_some() {
+        if closed {
             set_last_error(ERROR_SUCCESS);
             true
         } else {
@@ -2023,7 +2026,17 @@ pub unsafe extern "C" fn SFileFindFirstFile(
         drop(next_id);
 
         find_handle.current_index += 1; // Move to next for SFileFindNextFile
+        let archive_id = find_handle.archive_handle;
         FIND_HANDLES.lock().unwrap().insert(handle_id, find_handle);
+
+        // The archive table was released while the listing was prepared: if the archive was
+        // closed meanwhile, its search handles have already been purged and this one must not
+        // outlive it
+        if !ARCHIVES.lock().unwrap().contains_key(&archive_id) {
+            FIND_HANDLES.lock().unwrap().remove(&handle_id);
+            set_last_error(ERROR_INVALID_HANDLE);
+            return INVALID_HANDLE_VALUE;
+        }
 
         set_last_error(ERROR_SUCCESS);
         id_to_handle(handle_id)
